@@ -4,6 +4,7 @@ Reads the anchors the properties name (graph `_g`, node payloads, the name-keyed
 `_g.attrs`) and never raises on an ill-formed concrete state: whatever does not fit the abstract
 state is listed under "anom" so that the specification (WellFormed / report relations) judges it.
 """
+from decwire import excname
 import io
 import json
 import os
@@ -278,7 +279,7 @@ def report_digests(s, solve=True):
         try:
             out[key] = digest(fn())
         except Exception as e:
-            out[key] = "exc:" + type(e).__name__
+            out[key] = "exc:" + excname(e)
 
     run("params", lambda: df_canon(s.params(limits=True)))
     run("phases", lambda: df_canon(s.phases()))
